@@ -410,7 +410,7 @@ def validate(ctx, recs, name="tv", jvms=4, deviations=CMD_DEVIATIONS, timeout=90
     ids = sorted(h for h in recs if not recs[h].get("fatal"))
     jvms = max(1, min(jvms, len(ids) // 3 or 1))
     parts = [ids[i::jvms] for i in range(jvms)]
-    outs, rejected, errors = {}, [], []
+    outs, rejected, errors, skipped = {}, [], [], []
     lock = threading.Lock()
 
     def work(pi):
@@ -431,8 +431,11 @@ def validate(ctx, recs, name="tv", jvms=4, deviations=CMD_DEVIATIONS, timeout=90
                     rejected.append({"h": bad, "k": rel, "event": ent[rel - 1]["ev"] if 0 < rel <= len(ent) else None,
                                      "before": [e["ev"] for e in ent[max(0, rel - 6):rel - 1]]})
                     todo = todo[i + 1:]
-                if rounds > 6:
-                    raise vlib.MachineryError("too many rejected journals in one part")
+                if rounds > 6 and todo:
+                    # every rejected journal is reported by the caller; the rest of this part stays unexamined (counted)
+                    with lock:
+                        skipped.extend(todo)
+                    return
         except Exception as e:      # noqa
             errors.append(e)
     ths = [threading.Thread(target=work, args=(i,)) for i in range(jvms)]
@@ -445,6 +448,10 @@ def validate(ctx, recs, name="tv", jvms=4, deviations=CMD_DEVIATIONS, timeout=90
     amb = [k for k, v in outs.items() if "ambiguous" in v]
     if amb:
         raise vlib.MachineryError("TraceDurable found two explanations with different required states at %s" % amb[:3])
+    if skipped:
+        ctx.cov["journals_unexamined_after_rejections"] = len(skipped)
+        if not rejected:
+            raise vlib.MachineryError("journals left unexamined although none was rejected")
     return outs, rejected
 
 
